@@ -81,25 +81,66 @@ AUG_SMILES = (
     "OCc1c2c3ccc2cc1c3"[:0] or "c12c3ccc1cc2c3")
 
 
+DEC_FEATURES = ("novel", "multi_index", "ring1", "branch1", "organic", "charged_h", "stereo", "big_ring", "nested")
+SMI_THEMES = ("mixed", "mixed", "kekulize", "stereo", "molgen")
+
+
+def _chunk(rng, feat, novel, pairs):
+    if feat == "novel":
+        return rng.choice(novel)
+    if feat == "multi_index":      # 2-3 index symbols are read: Q = base-16 number
+        sym = rng.choice(("[Branch2]", "[=Branch2]", "[Ring2]", "[=Ring2]", "[Branch3]", "[Ring3]", "[#Branch2]"))
+        k = 3 if sym.endswith("3]") else 2
+        return sym + "".join(rng.choice(IDX) for _ in range(k))
+    if feat == "ring1":
+        return rng.choice(RINGY) + rng.choice(IDX[:6])
+    if feat == "branch1":
+        return rng.choice(gen.BRANCH[:3]) + rng.choice(IDX[:6])
+    if feat == "organic":
+        return rng.choice(gen.ORG_SYMS[:14])
+    if feat == "charged_h":
+        return rng.choice(pairs)
+    if feat == "stereo":
+        return rng.choice(("[/C]", "[\\C]", "[/N]", "[\\O]", "[C@@H1]", "[C@H1]", "[C@]", "[-/Ring1][Ring1]",
+                           "[\\/Ring1][Ring2]", "[/C@@H1]", "[=C]", "[/F]", "[\\Cl]"))
+    if feat == "big_ring":         # a ring / branch spanning more than 16 atoms
+        n = rng.randint(17, 40)
+        body = "".join(rng.choice(("[C]", "[C]", "[N]", "[O]", "[=C]")) for _ in range(n))
+        q = n - 2
+        return body + rng.choice(("[Ring2]", "[=Ring2]")) + IDX[q // 16] + IDX[q % 16]
+    if feat == "nested":
+        return "[Branch1][Branch1][C][Branch1][C][F][C]" if rng.random() < 0.5 else "[Branch2][Ring1][C][C][Branch1][Ring1][=O][C][N]"
+    raise ValueError(feat)
+
+
+def flood_string(rng, n):
+    """n distinct never-seen atom symbols: grows (or, in changed code, overflows) the symbol cache."""
+    el = rng.choice(("C", "N", "O", "S", "P", "B"))
+    off = rng.randrange(1, 300)
+    syms = ["[%d%s]" % (off + i, el) for i in range(n)]
+    if rng.random() < 0.5:
+        syms.reverse()
+    return "".join(syms)
+
+
 def corpus(rng):
-    """Inputs of a batch of runs: strings that collide on shared state (the
-    same novel symbols, the same uncached (element, charge) pairs)."""
+    """Inputs of a batch of runs.  Swarm: each batch switches on a few input
+    features and makes its strings dense in them, so that two threads are
+    likely to be inside the same rarely used code at the same time; strings
+    collide on shared state (same novel symbols, same uncached (element,
+    charge) pairs, same aromatic topologies)."""
     novel = rng.sample(NOVEL_POOL, rng.randint(3, 7))
+    pairs = ["[%s%+d]" % (rng.choice(stubs.ELEMENTS), rng.choice((1, 2, 3, -1, -2))) for _ in range(6)]
+    pairs += ["[%sH%d]" % (rng.choice(("C", "N", "Si", "P", "S", "B", "Ge")), rng.randint(1, 4)) for _ in range(4)]
+    feats = rng.sample(DEC_FEATURES, rng.randint(2, 4))
+    weights = [rng.choice((1, 2, 4)) for _ in feats]
+    if "organic" not in feats:
+        feats.append("organic")
+        weights.append(2)
     dec = []
     for _ in range(8):
-        n = rng.randint(3, 22)
-        w = []
-        for _ in range(n):
-            u = rng.random()
-            if u < 0.35:
-                w.append(rng.choice(novel))
-            elif u < 0.5:
-                w.append(rng.choice(RINGY) + rng.choice(IDX[:5]))
-            elif u < 0.62:
-                w.append(rng.choice(gen.BRANCH[:5]) + rng.choice(IDX[:5]))
-            else:
-                w.append(rng.choice(gen.ORG_SYMS[:12]))
-        s = "".join(w)
+        n = rng.choice((3, 5, 8, 12, 20, 30))
+        s = "".join(_chunk(rng, rng.choices(feats, weights)[0], novel, pairs) for _ in range(n))
         if rng.random() < 0.2:
             s += "." + "".join(rng.choice(novel + list(gen.ORG_SYMS[:6])) for _ in range(rng.randint(1, 6)))
         if rng.random() < 0.12:
@@ -108,16 +149,26 @@ def corpus(rng):
     # the same novel symbols in every string's head: first-sight races
     dec.append("".join(novel) + "[C][Ring1][Ring1]")
     dec.append("[C]" + "".join(reversed(novel)) + "[=C][F]")
-    theme = rng.choice(("mixed", "mixed", "decode", "kekulize"))
+    flood = rng.random() < 0.15
+    if flood:
+        dec[0] = flood_string(rng, rng.choice((140, 300, 530, 700)))
+        dec[1] = flood_string(rng, rng.choice((300, 530)))
+    theme = rng.choice(SMI_THEMES)
     if theme == "kekulize":
         smi = rng.sample(AUG_SMILES, 5) + rng.sample(SMILES_CONC[:10], 3)
+    elif theme == "stereo":
+        smi = [x for x in SMILES_CONC if "@" in x or "/" in x or "%" in x] + [rng.choice(AUG_SMILES)]
+    elif theme == "molgen":
+        smi = [rng.choice(AUG_SMILES), rng.choice(SMILES_CONC)]
     else:
         smi = rng.sample(SMILES_CONC, 6) + [rng.choice(AUG_SMILES)]
-    for _ in range(3):
+    for _ in range(8 if theme == "molgen" else 3):
         K = [gen.DEFAULT]
-        m = stubs.gen_mol(rng, K, 10) if rng.random() < 0.6 else stubs.gen_aromatic_mol(rng, K)
+        m = stubs.gen_mol(rng, K, rng.choice((6, 10, 14))) if rng.random() < 0.6 else stubs.gen_aromatic_mol(rng, K)
         smi.append(m.smiles(rng))
-    return dec, smi, theme
+    p_dec = rng.choice((0.15, 0.5, 0.6, 0.9, 1.0)) if theme != "kekulize" else 0.15
+    info = {"features": feats, "smiles_theme": theme, "flood": flood, "p_dec": p_dec}
+    return dec, smi, info
 
 
 def gen_table(rng):
@@ -135,8 +186,9 @@ def gen_spec(base_seed, i, W):
     per batch); threads, calls, flags, policy and schedule vary per run."""
     crng = random.Random("%d:schedsim:corpus:%d" % (base_seed, i // 16))
     K = gen_table(crng)
-    dec, smi, theme = corpus(crng)
-    p_dec = {"mixed": 0.6, "decode": 0.9, "kekulize": 0.15}[theme]
+    dec, smi, info = corpus(crng)
+    p_dec = info["p_dec"]
+    theme = info["smiles_theme"]
     rng = random.Random("%d:schedsim:run:%d" % (base_seed, i))
     n = rng.choice((2, 2, 2, 3, 3, 4) if procs.TIER == "quick" else (2, 2, 3, 3, 4, 5, 6))
     shared_first = rng.random() < 0.5
@@ -147,6 +199,8 @@ def gen_spec(base_seed, i, W):
         for j in range(rng.choice((1, 1, 2, 2, 3, 4) if procs.TIER == "quick" else (1, 2, 2, 3, 4, 6))):
             if rng.random() < p_dec:
                 x = rng.choice(dec)
+                if info["flood"] and j == 0 and rng.random() < 0.6:
+                    x = dec[t % 2]
                 if shared_first and j == 0:
                     first = first or x
                     x = first if rng.random() < 0.7 else x
@@ -156,9 +210,12 @@ def gen_spec(base_seed, i, W):
         threads.append(calls)
     alone = [[W.alone_run(K, c) for c in calls] for calls in threads]
     total = sum(s for calls in alone for _, s in calls)
-    kind = rng.choice(("random", "random", "window", "window", "pct"))
+    kind = rng.choice(("random", "random", "window", "window", "pct", "stall", "stall"))
     policy = {"kind": kind, "gran": rng.choice(("instr", "instr", "line"))}
-    if kind == "pct":
+    if kind == "stall":
+        policy["c"] = rng.choice((1 / 20, 1 / 60, 1 / 200))
+        policy["stalls"] = rng.choice((1, 1, 2, 3))
+    elif kind == "pct":
         d = rng.choice((1, 2, 3))
         policy["change_points"] = sorted(rng.randrange(1, max(2, total)) for _ in range(d))
     else:
@@ -172,7 +229,7 @@ def gen_spec(base_seed, i, W):
                 probes.append(c)
     probes = probes[:6] + [("decode", dec[-2], False, False), ("decode", dec[-1], False, True)]
     spec = {"table": K, "threads": threads, "policy": policy, "seed": "%d:schedsim:sched:%d" % (base_seed, i),
-            "budget": 50 * total + 20000, "probes": probes, "theme": theme}
+            "budget": 50 * total + 20000, "probes": probes, "theme": theme, "info": info}
     return spec, alone
 
 
@@ -222,9 +279,11 @@ def run_one(base_seed, i, want_sample=False):
         "nontrivial": bool(rec["overlap"] and rec["window_switches"]),
         "probes": {"overlap": rec["overlap"], "window_switches": rec["window_switches"],
                    "policy:" + spec["policy"]["kind"] + ":" + spec["policy"]["gran"]: 1,
-                   "threads:%d" % len(spec["threads"]): 1, "theme:" + spec["theme"]: 1,
+                   "threads:%d" % len(spec["threads"]): 1, "theme:" + spec["theme"]: 1, "flood_runs": 1 if spec["info"]["flood"] else 0,
+                   **{"feature:" + f: 1 for f in spec["info"]["features"]},
                    "fault_failing_call_in_a_thread": sum(1 for r in rec["results"] for x in r if x and x[0] == "err"),
                    "double_miss_runs": 1 if rec["double_miss"] else 0,
+                   "fault_thread_stalled": rec["stalls_fired"],
                    "double_augmenting_path_runs": 1 if rec["double_aug"] else 0},
         "oracle_queries": W.oracle.queries - q0, "oracle_hits": W.oracle.hits - h0,
         "fault_free": False, "violation": None,
@@ -274,12 +333,15 @@ def minimise(W, spec, rec, v, budget=300):
     cur["explicit"] = explicit_of(rec)
     cur["policy"] = dict(cur["policy"], kind="explicit")
 
+    steps_left = [40_000_000]       # bound on simulated steps spent minimising (about a minute)
+
     def fails(cand):
-        if spent[0] >= budget:
+        if spent[0] >= budget or steps_left[0] <= 0:
             return None
         spent[0] += 1
         try:
             r = W.run_spec(cand)
+            steps_left[0] -= r["steps"]
             vv = judge(W, cand, r)
         except procs.HarnessError:
             return None
